@@ -82,6 +82,7 @@ typedef struct vf_faultplan {
     uint32_t dev[8];                     /* choice point numbers that fail */
     int      sticky_kind;                /* -1 none; else every call of that kind ... */
     uint32_t sticky_from;                /* ... from its k-th occurrence on fails     */
+    int      one_kind; uint32_t one_n;    /* -1 none; else exactly the n-th call of that kind fails */
     uint32_t kind_count[VF_F_NKINDS];
     uint32_t took_effect;                /* injected failures that really happened */
 } vf_faultplan;
